@@ -451,13 +451,10 @@ Fixpoint wdMC (ρ : envC) (m : list (list expr)) : Prop :=
   match m with [] => True | r :: m' => all_wdC ρ r /\ wdMC ρ m' end.
 
 (* the symbols K[i, j], P[i, 0], rho_i of ampform.dynamics.kmatrix (create_symbol_matrix names) *)
-Definition Ksym (ρ : envC) (i j : nat) : C :=
-  csym ρ ("K[" ++ String (Ascii.ascii_of_nat (48 + i)) "" ++ ", " ++ String (Ascii.ascii_of_nat (48 + j)) "" ++ "]").
-Definition Psym (ρ : envC) (i : nat) : C :=
-  csym ρ ("P[" ++ String (Ascii.ascii_of_nat (48 + i)) "" ++ ", 0]").
-Definition rhosym (ρ : envC) (i : nat) : C :=
-  csym ρ ("rho" ++ String (Ascii.ascii_of_nat (48 + i)) "").
-Definition K2 (ρ : envC) : M2 := mk2 (Ksym ρ 0 0) (Ksym ρ 0 1) (Ksym ρ 1 0) (Ksym ρ 1 1).
+Definition K1 (ρ : envC) : M1 := csym ρ "K[0, 0]".
+Definition K2 (ρ : envC) : M2 :=
+  mk2 (csym ρ "K[0, 0]") (csym ρ "K[0, 1]") (csym ρ "K[1, 0]") (csym ρ "K[1, 1]").
 Definition K3 (ρ : envC) : M3 :=
-  mk3 (Ksym ρ 0 0) (Ksym ρ 0 1) (Ksym ρ 0 2) (Ksym ρ 1 0) (Ksym ρ 1 1) (Ksym ρ 1 2)
-      (Ksym ρ 2 0) (Ksym ρ 2 1) (Ksym ρ 2 2).
+  mk3 (csym ρ "K[0, 0]") (csym ρ "K[0, 1]") (csym ρ "K[0, 2]")
+      (csym ρ "K[1, 0]") (csym ρ "K[1, 1]") (csym ρ "K[1, 2]")
+      (csym ρ "K[2, 0]") (csym ρ "K[2, 1]") (csym ρ "K[2, 2]").
